@@ -2,6 +2,7 @@ package cluster
 
 import (
 	"fmt"
+	"github.com/lni/dragonboat/v4/internal/verifhook"
 	"sync"
 	"sync/atomic"
 	"time"
@@ -132,6 +133,9 @@ type Cluster struct {
 	SMs   *SMRegistry
 	Hosts []*Host
 	Sink  Sink
+	// ticks processed per (shard, replica), counted at the NodeTick hook
+	tickMu sync.Mutex
+	ticks  map[[2]uint64]*int64
 	// listeners
 	leaderMu sync.Mutex
 	leaders  map[[2]uint64]uint64 // (shard, term) -> leader
@@ -143,7 +147,8 @@ func NewCluster(opt Options, sink Sink) *Cluster {
 	if opt.RTTMs == 0 {
 		opt.RTTMs = 10
 	}
-	c := &Cluster{Opt: opt, Net: NewNet(opt.Seed), Clock: &Clock{}, Sink: sink, leaders: map[[2]uint64]uint64{}}
+	c := &Cluster{Opt: opt, Net: NewNet(opt.Seed), Clock: &Clock{}, Sink: sink, leaders: map[[2]uint64]uint64{}, ticks: map[[2]uint64]*int64{}}
+	verifhook.SetPoint(verifhook.NodeTick, func(shardID, replicaID uint64) { atomic.AddInt64(c.tickCtr(shardID, replicaID), 1) })
 	smopt := opt.SMOpt
 	if smopt == nil {
 		smopt = func(uint64, uint64) SMOptions { return SMOptions{Kind: Regular, RecordApply: true} }
@@ -155,6 +160,21 @@ func NewCluster(opt Options, sink Sink) *Cluster {
 		c.Hosts = append(c.Hosts, h)
 	}
 	return c
+}
+
+func (c *Cluster) tickCtr(shardID, replicaID uint64) *int64 {
+	c.tickMu.Lock()
+	defer c.tickMu.Unlock()
+	k := [2]uint64{shardID, replicaID}
+	if c.ticks[k] == nil {
+		c.ticks[k] = new(int64)
+	}
+	return c.ticks[k]
+}
+
+// Ticks returns how many ticks the replica has processed so far (all incarnations).
+func (c *Cluster) Ticks(shardID, replicaID uint64) int64 {
+	return atomic.LoadInt64(c.tickCtr(shardID, replicaID))
 }
 
 type logdbFactory struct{ h *Host }
